@@ -483,16 +483,22 @@ fn entry(e: u32, a: usize, b: usize, w: u32, src: &mut Src) -> Result<&'static s
             let n = a.max(1);
             let solver = (e - 56) as usize;
             let name: &'static str = ["Sparse::solve_cg", "Sparse::solve_bicg (itol 1)", "Sparse::solve_bicg (itol 2)", "Sparse::solve_bicgstab", "Sparse::solve_qmr"][solver];
-            let which = src.below(3);
+            let which = src.below(5);
             let other = if mism { b.max(1) } else { n + 1 };
+            let zeros = |k: usize| Vector::create(vec![0.0f64; k]);
             let (s, bv, mut xv) = match which {
                 0 => (sp(src, n, n), fv(src, other), fv(src, other)),
                 1 => (sp(src, n, other), fv(src, n), fv(src, n)),
-                _ => (sp(src, n, n), fv(src, n), fv(src, other)),
+                2 => (sp(src, n, n), fv(src, n), fv(src, other)),
+                // non-square matrix whose products are conformable (|b| = rows, |x| = cols): only the explicit
+                // squareness check rejects it; with zero data the start is already "converged"
+                3 => (sp(src, n, other), zeros(n), zeros(other)),
+                _ => (sp(src, n, other), fv(src, n), fv(src, other)),
             };
             let bad = other != n;
+            let budget = if which >= 3 && src.coin() { 0 } else { 5 };
             let snap: Vec<u64> = xv.vec.iter().map(|v| v.to_bits()).collect();
-            let r = catch(|| super::itersys::call(solver, &s, &bv, &mut xv, 5, 1e-8));
+            let r = catch(|| super::itersys::call(solver, &s, &bv, &mut xv, budget, 1e-8));
             if bad {
                 if r.is_ok() {
                     return Err(format!("{}: mismatched sizes (variant {}: n = {}, other = {}) returned normally", name, which, n, other));
@@ -566,6 +572,32 @@ fn entry(e: u32, a: usize, b: usize, w: u32, src: &mut Src) -> Result<&'static s
             must_panic("Mesh1D index_mut node out of range", || m[oob(n, w)][0] = 1.0)?;
             must_panic("Mesh1D::trapezium variable out of range", || m.trapezium(oob(nv, w)))?;
             must_return("Mesh1D::trapezium", || m.trapezium(nv - 1))?;
+            // state left behind by an earlier call: after reading a file with FEWER nodes the nodes beyond the
+            // new end are outside the mesh and must be rejected by every accessor
+            let small = 2 + (b % (n - 1).max(1)).min(n.saturating_sub(3));
+            if small < n {
+                let src_mesh = Mesh1D::<f64, f64>::new(Vector::<f64>::linspace(0.0, 1.0, small), nv);
+                let file = std::env::temp_dir().join(format!("ohsl-verif-{}", std::process::id()));
+                let _ = std::fs::create_dir_all(&file);
+                let file = file.join(format!("c20-{:?}-{}.dat", std::thread::current().id(), small)).to_string_lossy().into_owned();
+                src_mesh.output(&file, 6);
+                for i in 0..n {
+                    m[i][0] = 100.0 + i as f64;
+                }
+                m.read(&file);
+                let _ = std::fs::remove_file(&file);
+                if m.nnodes() != small {
+                    return Err(format!("Mesh1D::read: {} nodes after reading a file with {}", m.nnodes(), small));
+                }
+                for k in [small, n - 1] {
+                    must_panic("Mesh1D index beyond the end after read() shrank the mesh", || m[k].size())?;
+                    must_panic("Mesh1D index_mut beyond the end after read() shrank the mesh", || m[k][0] = 1.0)?;
+                    must_panic("Mesh1D::get_nodes_vars beyond the end after read() shrank the mesh", || m.get_nodes_vars(k))?;
+                    must_panic("Mesh1D::set_nodes_vars beyond the end after read() shrank the mesh", || m.set_nodes_vars(k, fv(src, nv)))?;
+                    must_panic("Mesh1D::coord beyond the end after read() shrank the mesh", || m.coord(k))?;
+                }
+                return Ok("Mesh1D coord/index/trapezium out of range");
+            }
             for i in 0..n {
                 if m.get_nodes_vars(i).vec != vec![0.0; nv] {
                     return Err("Mesh1D: a rejected write modified the mesh".into());
